@@ -43,7 +43,7 @@ def run(ctx):
                      "elapses' are decided as control-flow order and as the arithmetic until = now + grace / until <= now, not in wall-clock terms.")
     ctx.rule("R06.1", "GracefulStop / TryGracefulRestart on a running command: signal_child(signal) succeeds first, then the timer is armed with "
                       "the control's grace and flag, no kill is reachable in the arm, completion is deferred (part of the R09.1 effect table, re-checked here)")
-    ctx.rule("R06.2", "Timer::stop/restart set until = Instant::now() + grace; is_past is until <= now; to_sleep sleeps until `until`; "
+    ctx.rule("R06.2", "Timer::stop/restart set until = Instant::now() + grace (checked: a sum that does not fit an Instant becomes a far-future deadline, never a panic); is_past is until <= now; to_sleep sleeps until `until`; "
                       "to_control yields Stop / ContinueTryGracefulRestart with the timer's own flag")
     ctx.rule("R06.3", "PriorityReceiver::recv reads the normal queue only on the branch where no timer is armed; the forced control is produced "
                       "only after is_past() or after the sleep fired, and the timer is cleared on both")
@@ -58,6 +58,12 @@ def run(ctx):
     api = {}
     try:
         api = jobrules.check_api_table(ctx, "R06.7")
+    except Skip:
+        pass
+    ctx.rule("R06.11", "no duration supplied at run time (grace period, throttle, delay) is added to an Instant with the panicking operator anywhere in the "
+                       "library, supervisor or CLI: the job task cannot be brought down - and the child killed through its dropped handle - by a grace period of Duration::MAX")
+    try:
+        jobrules.no_panicking_instant_arith(ctx, "R06.11")
     except Skip:
         pass
     for fn in (jobrules.timer_summaries, jobrules.signal_child_rule):
